@@ -472,6 +472,9 @@ func runPipeline(c *simrun.Ctx) *simrun.Violation {
 					h.EmptyNotNil = t.Chance("empty-notnil", 1, 2)
 					h.EmptyCap = []int{0, 1, 4}[t.Draw("empty-cap", 3)]
 					fp.prebuilt, err = h.BuildStruct(fp.av, corpus[fp.typ].ProtoReflect().Type())
+				} else if t.Chance("build-morph", 1, 2) {
+					from := simval.Gen(t, md, cfg)
+					fp.prebuilt, err = h.BuildMorph(from, fp.av, corpus[fp.typ].ProtoReflect().Type())
 				} else {
 					h.TruncateLists = t.Chance("truncate-lists", 1, 2)
 					fp.prebuilt, err = h.BuildReflect(fp.av, corpus[fp.typ].ProtoReflect().Type())
